@@ -585,8 +585,26 @@ func enumNodes(kinds []skKind, n, d int, memo map[[3]int][][]skNode) []skNode {
 	return out
 }
 
+// skRec records, for the static Batch checks of C16, which marker ids were allocated inside
+// each construct and which marker sits directly in front of each break/continue.
+type skConstruct struct {
+	name   string
+	loop   bool
+	lo, hi int // marker ids allocated while building the construct: [lo, hi] (empty if hi < lo)
+}
+type skJump struct {
+	marker int    // id of the marker printed immediately before the jump statement
+	kind   string // break | continue
+	loop   int    // index into constructs
+}
+type skRec struct {
+	constructs []skConstruct
+	jumps      []skJump
+}
+
 // skBuilder turns a skeleton into a program.
 type skBuilder struct {
+	rec        *skRec
 	nextMarker int
 	nextCtr    int
 	nextSimple int
@@ -660,6 +678,18 @@ func (b *skBuilder) block(kids []skNode, ctrs []string, inLoop bool) []Stmt {
 }
 
 func (b *skBuilder) node(n skNode, ctrs []string, inLoop bool) []Stmt {
+	if b.rec != nil && !n.kind.loop {
+		lo := b.nextMarker + 1
+		idx := len(b.rec.constructs)
+		b.rec.constructs = append(b.rec.constructs, skConstruct{name: n.kind.name})
+		out := b.nodeInner(n, ctrs, inLoop)
+		b.rec.constructs[idx].lo, b.rec.constructs[idx].hi = lo, b.nextMarker
+		return out
+	}
+	return b.nodeInner(n, ctrs, inLoop)
+}
+
+func (b *skBuilder) nodeInner(n skNode, ctrs []string, inLoop bool) []Stmt {
 	k := n.kind
 	blk := func(i int) []Stmt { return b.block(n.kids[i], ctrs, inLoop) }
 	s := subject(ctrs)
@@ -737,18 +767,29 @@ func (b *skBuilder) loop(n skNode, ctrs []string) []Stmt {
 		return []Stmt{post}
 	}
 	var body []Stmt
-	if !hasCond {
-		body = append(body, If{Cond: Binary{Op: ">=", L: Var{c}, R: IntLit{3}}, Then: []Stmt{Break{}}})
+	loopIdx := -1
+	loLoop := b.nextMarker + 1
+	if b.rec != nil {
+		loopIdx = len(b.rec.constructs)
+		b.rec.constructs = append(b.rec.constructs, skConstruct{name: k.name, loop: true})
 	}
-	jumpStmt := func(kind string) Stmt {
-		switch kind {
-		case "break":
-			return If{Cond: eqc(Var{c}, 1), Then: []Stmt{Break{}}}
-		case "continue":
-			return If{Cond: eqc(Var{c}, 1), Then: append(step(), Continue{})}
+	// every break/continue is preceded by its own marker, so the emitted jump can be located
+	jumpIf := func(cond Expr, kind string) Stmt {
+		lo := b.nextMarker + 1
+		m := b.marker(inner)
+		if b.rec != nil {
+			b.rec.constructs = append(b.rec.constructs, skConstruct{name: "jump-if", lo: lo, hi: b.nextMarker})
+			b.rec.jumps = append(b.rec.jumps, skJump{marker: b.nextMarker, kind: kind, loop: loopIdx})
 		}
-		return nil
+		if kind == "break" {
+			return If{Cond: cond, Then: []Stmt{m, Break{}}}
+		}
+		return If{Cond: cond, Then: append(append([]Stmt{m}, step()...), Continue{})}
 	}
+	if !hasCond {
+		body = append(body, jumpIf(Binary{Op: ">=", L: Var{c}, R: IntLit{3}}, "break"))
+	}
+	jumpStmt := func(kind string) Stmt { return jumpIf(eqc(Var{c}, 1), kind) }
 	switch k.jump {
 	case "break-start":
 		body = append(body, jumpStmt("break"))
@@ -764,9 +805,15 @@ func (b *skBuilder) loop(n skNode, ctrs []string) []Stmt {
 	}
 	body = append(body, b.marker(inner))
 	if k.jump == "break-uncond" {
+		if b.rec != nil {
+			b.rec.jumps = append(b.rec.jumps, skJump{marker: b.nextMarker, kind: "break", loop: loopIdx})
+		}
 		body = append(body, Break{})
 	} else {
 		body = append(body, step()...)
+	}
+	if b.rec != nil {
+		b.rec.constructs[loopIdx].lo, b.rec.constructs[loopIdx].hi = loLoop, b.nextMarker
 	}
 	var out []Stmt
 	f := For{Body: body}
